@@ -258,6 +258,8 @@ def check_case(ctx, case, rng):
                 libv = lib.alt_form(lib.build(T.__fields__[i].type, f["t"], nv, f), f["t"], rng)
                 if type(libv) in (str, int) and f["t"]["k"] != "wchar" and (f["t"]["k"] == "char" or f["t"].get("elem", {}).get("k") == "char"):
                     ctx.event("char_assigned_as_str_or_int")
+                if type(libv) is int and f["t"]["k"] == "enum":
+                    ctx.event("enum_assigned_as_int")
                 setattr(obj, n, libv)
                 d1 = obj.dumps()
             except Exception as e:  # noqa: BLE001
